@@ -8,8 +8,8 @@ CONSTANTS
   JCmds = {}
   HCmds = {"tick", "clear", "execdrop"}
   Spurious = TRUE
-  Strict = FALSE
-  Fix = {}
+  Strict = TRUE
+  Fix = {"D10a", "D10b", "D11", "D12"}
 SPECIFICATION LiveSpec
 INVARIANTS NoErr HomeOnly ExactlyOnce NoWakerLeak RcMatches NoLostJoinWake PendingBound ScntOk
 PROPERTIES WaitTerminates
